@@ -494,6 +494,18 @@ func propC09(j *Job) {
 			}
 		}
 	}
+	// a blocking write made from the buffered-amount callback, ended by Close / Abort
+	for bi, b := range bases {
+		if bi == 2 {
+			continue
+		}
+		for _, x := range []string{"closeA", "abortA"} {
+			j.Explore(fmt.Sprintf("CW/%s/%s", b.name, x), callbackWriterScenario(b.a, b.b, x), Budget{}, nil)
+			if j.capped() {
+				return
+			}
+		}
+	}
 	// crash points at exact scheduling steps (inside handlers, between two lock acquisitions)
 	for bi, b := range bases {
 		if bi > 0 && !j.Thorough() {
@@ -631,6 +643,74 @@ func readersScenario(a, b epCfg, kind, x string, when time.Duration) *Scenario {
 				return true
 			})
 			m.Observe("%s %s ok=%v", kind, x, ok)
+		},
+		Final: func(m *Sim, x *Exec) { generalVerdicts(m, x, true) },
+	}
+}
+
+// callbackWriterScenario: blocking-write mode; the application's OnBufferedAmountLow callback
+// writes the next message, the canonical use of that callback.  The callback runs on the
+// association's read loop: while its write waits for the queue to drain nobody processes
+// acknowledgements, so it waits until something from outside ends it.  Close / Abort called by
+// the application on that association is such a thing: the blocked write and the call itself
+// must return.
+func callbackWriterScenario(a, b epCfg, x string) *Scenario {
+	return &Scenario{
+		Name:    "callback-writer",
+		Horizon: 120 * time.Second,
+		Body: func(m *Sim) {
+			if !m.Connect(a, b) {
+				m.Failf("connect", "handshake failed: %v %v", m.Err[0], m.Err[1])
+				m.closeFailedTransports()
+				m.CloseBoth()
+				return
+			}
+			sa, _ := m.As[0].OpenStream(1, PayloadTypeWebRTCBinary)
+			sb, _ := m.As[1].OpenStream(1, PayloadTypeWebRTCBinary)
+			m.streamsSeen = append(m.streamsSeen, sa, sb)
+			rd := m.Go("readB", func() {
+				buf := make([]byte, 70000)
+				for {
+					if _, _, err := sb.ReadSCTP(buf); err != nil {
+						return
+					}
+				}
+			})
+			var cbErr error
+			cbReturned, cbEntered := false, false
+			sa.SetBufferedAmountLowThreshold(5000)
+			sa.OnBufferedAmountLow(func() {
+				if cbEntered {
+					return
+				}
+				cbEntered = true
+				_, cbErr = sa.WriteSCTP(payload(1, 1, 300), PayloadTypeWebRTCBinary)
+				cbReturned = true
+			})
+			if _, err := sa.WriteSCTP(payload(1, 0, 6000), PayloadTypeWebRTCBinary); err != nil {
+				m.Failf("write", "first write: %v", err)
+			}
+			m.WaitUntil("callback-entered", 20*time.Second, func() bool { return cbEntered })
+			m.Sleep(2 * time.Second)
+			blocked := cbEntered && !cbReturned
+			m.Observe("callback write blocked=%v", blocked)
+			t0 := m.S.Now()
+			xt := m.Go("x", func() { m.inject(x) })
+			ok := m.WaitUntil("x-returned", 5*time.Second, func() bool { return xt.Done })
+			if !ok {
+				m.Failf("teardown.blocked", "%s has not returned 5 s after it was called (a write made from the OnBufferedAmountLow callback is waiting in blocking-write mode: callback returned=%v)", x, cbReturned)
+			} else if d := m.S.Now() - t0; d > 1100*time.Millisecond {
+				m.Failf("teardown.slow", "%s took %v to return", x, d)
+			}
+			if cbEntered && !cbReturned {
+				m.Failf("teardown.blocked", "the write made from the OnBufferedAmountLow callback is still blocked after %s", x)
+			} else if blocked && cbErr == nil {
+				m.Failf("teardown.error", "the blocked write returned success after %s", x)
+			}
+			m.CloseBoth()
+			(&wconn{w: m.W, id: 0}).Close()
+			(&wconn{w: m.W, id: 1}).Close()
+			m.WaitUntil("all-back", 3*time.Second, func() bool { return rd.Done && xt.Done })
 		},
 		Final: func(m *Sim, x *Exec) { generalVerdicts(m, x, true) },
 	}
